@@ -16,7 +16,8 @@
    verdict RpAcceptUnchecked - nothing is claimed for those (see notes/C15.md).  W is replay_window_size (every
    integer; the code keeps 64 bits, so sizes above 64 act like 64), b12 is rfc8613_b_1_2. *)
 From LibcoapV Require Import Base.Tactics Oscore.Replay Oscore.ReplayProofs Oscore.ReplayRefuted
-  Oscore.SenderSeq Oscore.SenderSeqProofs Oscore.EndToEnd.
+  Oscore.SenderSeq Oscore.SenderSeqProofs Oscore.EndToEnd Oscore.Recipients
+  Oscore.RecipientsProofs.
 From Coq Require Import Sorted.
 Local Open Scope Z_scope.
 
@@ -95,6 +96,41 @@ Theorem C15_challenge_request_nonce_refuted :
   exists h, ~ NoDup (rp_reply_nonces false 0 h (fst (rp_run rp_fixed 32 true rp_init h))).
 Proof. exact rp_challenge_request_nonce_refuted. Qed.
 Print Assumptions C15_challenge_request_nonce_refuted.
+
+(* ---- the recipient chain and its management calls (coap_new_oscore_recipient,
+   coap_delete_oscore_recipient, recipient_id lines) interleaved with deliveries ---- *)
+
+(* adding an id that is already in the chain is refused and changes nothing: no second, empty
+   replay window can shadow the existing one *)
+Theorem C15_duplicate_recipient_refused : forall v W b12 c id,
+  In id (rl_ids c) -> rl_step v W b12 c (RlAdd id) = (RlRet false, c).
+Proof. exact rl_add_duplicate_refused. Qed.
+Print Assumptions C15_duplicate_recipient_refused.
+
+(* per lifetime of a recipient context: any interleaving of adds (also of the same id), deletes
+   of other ids and deliveries for any id, starting from an empty chain - no sequence number is
+   accepted twice for an id that is not deleted *)
+Theorem C15_recipient_at_most_once : forall W b12 id ops,
+  existsb (rl_is_del id) ops = false ->
+  NoDup (rl_accepted id ops (fst (rl_run rp_fixed W b12 [] ops))).
+Proof. exact rl_at_most_once. Qed.
+Print Assumptions C15_recipient_at_most_once.
+
+(* the ids of the chain stay pairwise distinct, so the lookup by kid never has a choice *)
+Theorem C15_recipient_ids_distinct : forall v W b12 ops,
+  NoDup (rl_ids (snd (rl_run v W b12 [] ops))).
+Proof. intros v W b12 ops. apply rl_run_nodup. constructor. Qed.
+Print Assumptions C15_recipient_ids_distinct.
+
+(* delete followed by add is, by decision of the application, a NEW recipient context in its
+   initial state (what is claimed above is per lifetime of an entry; see Oscore/Recipients.v) *)
+Theorem C15_delete_add_new_context : forall v W b12 c id s,
+  NoDup (rl_ids c) -> rl_find c id = Some s ->
+  let c1 := snd (rl_step v W b12 c (RlDel id)) in
+  rl_find c1 id = None /\
+  rl_find (snd (rl_step v W b12 c1 (RlAdd id))) id = Some rp_init.
+Proof. exact rl_del_add_is_new_context. Qed.
+Print Assumptions C15_delete_add_new_context.
 
 (* ---- sender ---- *)
 
